@@ -29,7 +29,8 @@ SliceSrcIndices(shape, parts, at) ==
 \* the meaning of one operation event applied to the first operand value a (programs thread intermediate values through it)
 RECURSIVE RunProg(_, _, _)
 ExpectWith(e, a) ==
-    CASE e.op = "reshape"     -> Reshape(a, e.args.dst)
+    CASE e.op = "cast"        -> a          \* C20 / C09: casting to another array kind or element type keeps shape and values
+      [] e.op = "reshape"     -> Reshape(a, e.args.dst)
       [] e.op = "flatten"     -> Flatten(a)
       [] e.op = "transpose"   -> Transpose(a, e.args.axes)
       [] e.op = "moveaxis"    -> MoveAxis(a, e.args.src, e.args.dst)
@@ -62,7 +63,7 @@ ExpectWith(e, a) ==
       [] e.op = "where" -> LET r == BShapeN(e.shapes) IN
             IF ~r[1] THEN Nothing
             ELSE LET cnd == BroadcastTo(a, r[2])  x == BroadcastTo(Operand(e, 2), r[2])  y == BroadcastTo(Operand(e, 3), r[2])
-                 IN [ok |-> TRUE, shape |-> r[2], elems |-> [q \in 1..Len(x.elems) |-> IF cnd.elems[q] % 2 = 1 THEN x.elems[q] ELSE y.elems[q]]]
+                 IN [ok |-> TRUE, shape |-> r[2], elems |-> [q \in 1..Len(x.elems) |-> IF (cnd.elems[q] % 3) - 1 # 0 THEN x.elems[q] ELSE y.elems[q]]]     \* the driver maps condition values to -1 / 0 / 1: any non-zero value is true
       [] e.op = "arange" -> Arange(e.args.start, e.args.stop, e.args.step)
       [] e.op = "arange2" -> Arange(e.args.start, e.args.stop, 1)
       [] e.op = "arange1" -> Arange(0, e.args.stop, 1)
